@@ -14,8 +14,8 @@ import (
 	"strconv"
 	"strings"
 	"sync/atomic"
-	"time"
 	"syscall"
+	"time"
 	"unsafe"
 
 	"go.1password.io/spg"
@@ -102,8 +102,9 @@ func observeDraw(n uint32, words []uint32) drawObs {
 		prev := simr.cur
 		simr.cur = t
 		defer func() { simr.cur = prev }()
-		atomic.StoreInt64(&opClock.start, time.Now().UnixNano()) // "selection terminates": a spinning draw is a hang
-		defer atomic.StoreInt64(&opClock.start, 0)
+		t0 := time.Now().UnixNano()
+		atomic.StoreInt64(&opClock.start, t0) // "selection terminates": a spinning draw is a hang
+		defer opDone(t0)
 		o.res = spg.VerifRandomUint32n(n)
 		o.outcome = "ok"
 	}()
